@@ -77,7 +77,7 @@ class _StdApi:
             import xdis.bytecode as xcode
         self.xcode = xcode
 
-        self.opc = opc = get_opcode_module(python_version, variant)
+        self.opc = opc = api_opc = get_opcode_module(python_version, variant)
         self.python_version_tuple = opc.version_tuple
         self.is_pypy = variant == PYPY
         self.is_graal = variant == GRAAL
@@ -99,7 +99,9 @@ class _StdApi:
 
             def __init__(self, x, first_line=None, current_offset=None, opc=None):
                 if opc is None:
-                    opc = _std_api.opc
+                    # The opcodes of the API object this class belongs to; not
+                    # those of the default (running interpreter's) API.
+                    opc = api_opc
                 _Bytecode.__init__(
                     self,
                     x,
